@@ -15,6 +15,7 @@ APPEND = {
     "datetime_mod.rs": "src/datetime/mod.rs",
     "datetime_find.rs": "src/datetime/find.rs",
     "std_specs.rs": "src/utils/const_fns.rs",
+    "parse_tz_file.rs": "src/parse/tz_file.rs",
 }
 
 
